@@ -231,3 +231,23 @@ def replay(ctx, pid, obj, oracle=None):
         return 1
     print("agree")
     return 0
+
+
+def replay_obligations(ctx, pid, obj, props, ties):
+    """replay of a violation without failing input: re-establish the obligations (statement files and the
+    syntactic ties) on the current tree"""
+    import os as _os
+    from harness import vskel
+    for rel in props:
+        if _os.path.exists(_os.path.join(core.COQ, rel)):
+            core.check_props(ctx, [rel])
+    vskel.check(ctx, ties)
+    broken = ctx.broken_obligations()
+    print("stored: " + str(obj.get("what"))[:400])
+    if broken:
+        for n, d in broken:
+            print("still broken: %s%s" % (n, (" -- " + d[:300]) if d else ""))
+        print("VIOLATION property=%s replay=%s no-failing-input-found" % (pid, obj.get("rerun", "").split()[-1]))
+        return 1
+    print("agree (all %d obligations hold on this tree)" % len(ctx.obligations))
+    return 0
